@@ -1,5 +1,6 @@
 import MpsVerif.Proofs.EagerMono
 import MpsVerif.Proofs.EagerWork
+import MpsVerif.Proofs.EagerGreedy
 /-!
 # C19 — EagerBatcher partitions its input and waits no longer than told
 
@@ -265,6 +266,50 @@ theorem C19_waits_no_longer_than_told (c : Cfg) (hbs : 1 ≤ c.bs) (hstrict : c.
       · exact hcur (hi.held hg)
       · exact hcur (hi.done hg).1
 
+/-- **Closed form** (zero processing time).  `greedy c l` groups a take-stamped sequence greedily: a
+    batch opens with an item taken at `t0`, takes in every further entry taken up to `t0 + wait` until
+    it is full or the end marker comes (then it goes out at that take's clock), and otherwise goes out
+    at `t0 + wait`.  As long as no entry was taken at exactly `t0 + wait` of an open batch (`tie`; then
+    the outcome depends on who was first, see the example below), at every moment of every run the
+    batches handed out plus the one being collected are exactly the greedy grouping of what has been
+    taken, and, whenever the batcher holds nothing, so are the clocks at which they were handed out. -/
+theorem C19_closed_form (c : Cfg) (hbs : 1 ≤ c.bs) (hstrict : c.strict = true) (as : List Act) (s : State)
+    (h : Core.run (step c) init as = some s) (htf : (greedy c s.takenAt).tie = false) :
+    s.out ++ (if s.cur = [] then [] else [s.cur]) = (greedy c s.takenAt).closed ∧
+    (s.cur = [] → s.outAt = (greedy c s.takenAt).closedAt c) := by
+  have hi := all_reachable c hbs ⟨as, h⟩
+  obtain ⟨r1, r2, r3⟩ := rel_reachable c hbs hstrict ⟨as, h⟩ htf
+  have sync : Sync s (greedy c s.takenAt) →
+      s.out ++ (if s.cur = [] then [] else [s.cur]) = (greedy c s.takenAt).closed ∧
+      (s.cur = [] → s.outAt = (greedy c s.takenAt).closedAt c) := by
+    intro ⟨a1, a2, a3, a4, a5⟩
+    by_cases hc : s.cur = []
+    · simp [Grp.closed, Grp.closedAt, a1, a2, a3, hc]
+    · simp [Grp.closed, a1, a3, hc]
+  have behind : Behind c s (greedy c s.takenAt) →
+      s.out ++ (if s.cur = [] then [] else [s.cur]) = (greedy c s.takenAt).closed ∧
+      (s.cur = [] → s.outAt = (greedy c s.takenAt).closedAt c) := by
+    intro ⟨b1, b2, b3, b4, _, _, _⟩
+    simp [Grp.closed, Grp.closedAt, b1, b2, b3, b4]
+  cases hpc : s.pc with
+  | idle => rcases r1 (.inl hpc) with h | h; exact sync h; exact behind h
+  | held => rcases r1 (.inr hpc) with h | h; exact sync h; exact behind h
+  | coll => exact sync (r2 (.inl hpc))
+  | closing => exact sync (r2 (.inr (.inl hpc)))
+  | done => exact sync (r2 (.inr (.inr hpc)))
+  | flush =>
+    have hcne : s.cur ≠ [] := by intro h0; have := (hi.flush hpc).1; simp [h0] at this
+    rcases r3 hpc with ⟨h, _, _⟩ | ⟨b1, _, b3, _⟩
+    · exact sync h
+    · simp [Grp.closed, b1, b3, hcne]
+
+/-- the take stamps the closed form is about: `takenAt` is `taken` with the clock of each get; the
+    stamps are nondecreasing and never in the future -/
+theorem C19_take_stamps (c : Cfg) (as : List Act) (s : State) (h : Core.run (step c) init as = some s) :
+    s.takenAt.map (·.1) = s.taken ∧ (∀ p ∈ s.takenAt, p.2 ≤ s.clock) ∧
+    (s.takenAt.map (·.2)).Pairwise (· ≤ ·) :=
+  takenAt_reachable c ⟨as, h⟩
+
 /-- the batcher never spins: in every run the number of steps of the batcher and the consumer
     (`work as` = number of `take`/`timeout`/`emit`/`resume`/`stop` actions in `as`) is at most four per
     arrival (`arrivals as` = number of `arrive` actions): no polling loop, no repeated time-outs on an
@@ -341,6 +386,34 @@ example :
       step c s .emit = some s' ∧ s.cur.length < c.bs ∧ s.fin = false ∧ s.t0 = 0 ∧ s.clock = 6 ∧
       s'.out = [[some 1, some 2]] := by
   refine ⟨_, _, rfl, rfl, ?_⟩
+  decide
+
+/-- closed form, non-vacuity: the repo test's pattern (`batch_size 3`, `wait 4`): takes at clocks
+    4,4,6,6,7,15,21 and the marker at 26 group into `[[1,2,3],[4,5],[6],[7]]` handed out at 6,10,19,25,
+    without a tie — and that is what the run of the model produced -/
+example :
+    let c : Cfg := { bs := 3, wait := 4, endm := none, strict := true }
+    ∃ s, Core.run (step c) init
+        [.tick 4, .arrive (some 1), .arrive (some 2), .take, .take, .tick 2, .arrive (some 3), .take, .arrive (some 4),
+         .emit, .resume, .take, .tick 1, .arrive (some 5), .take, .tick 3, .timeout, .emit, .resume, .tick 5,
+         .arrive (some 6), .take, .tick 4, .timeout, .emit, .resume, .tick 2, .arrive (some 7), .take, .tick 4,
+         .timeout, .emit, .resume, .tick 1, .arrive none, .take, .stop] = some s ∧
+      (greedy c s.takenAt).tie = false ∧
+      s.out = [[some 1, some 2, some 3], [some 4, some 5], [some 6], [some 7]] ∧ s.outAt = [6, 10, 19, 25] ∧
+      (greedy c s.takenAt).closed = s.out ∧ (greedy c s.takenAt).closedAt c = s.outAt := by
+  refine ⟨_, rfl, ?_⟩
+  decide
+
+/-- the no-tie hypothesis of `C19_closed_form` is needed: item 2 is put at the very instant the wait of
+    `[1]` expires (clock 5) but *after* the batcher has noticed the expiry; it starts a new batch,
+    whereas the greedy grouping puts it into the first one.  `tie` flags exactly this. -/
+example :
+    let c : Cfg := { bs := 3, wait := 5, endm := none, strict := true }
+    ∃ s, Core.run (step c) init
+        [.arrive (some 1), .take, .tick 5, .timeout, .arrive (some 2), .emit, .resume, .take] = some s ∧
+      (greedy c s.takenAt).tie = true ∧ s.out = [[some 1]] ∧ s.cur = [some 2] ∧
+      (greedy c s.takenAt).closed = [[some 1, some 2]] := by
+  refine ⟨_, rfl, ?_⟩
   decide
 
 /-- `C19_no_stall`'s third alternative is reachable: waiting in the timed get, time may pass up to
